@@ -343,6 +343,21 @@ def _simple_arg(e):
         isinstance(e, ast.UnaryOp) and _simple_arg(e.operand))
 
 
+def _relocate(nodes, call):
+    """Expanded statements take the position of the call they replace:
+    positions order the statements of a function (N1 substitutes an alias
+    in what comes after its assignment), and the helper's own lines are
+    somewhere else in the file."""
+    for top in nodes:
+        for n in ast.walk(top):
+            if hasattr(n, 'lineno'):
+                n.lineno = call.lineno
+                n.end_lineno = getattr(call, 'end_lineno', call.lineno)
+                n.col_offset = call.col_offset
+                n.end_col_offset = getattr(call, 'end_col_offset',
+                                           call.col_offset)
+
+
 def inline_new_helpers(tree, modname, inventory):
     """N3 on a module (in place)."""
     if inventory is None:
@@ -439,6 +454,7 @@ def inline_new_helpers(tree, modname, inventory):
             val = copy.deepcopy(retval)
             val = Ren().visit(val)
             val = _Subst(mapping).visit(val)
+        _relocate(pre + new + ([val] if val is not None else []), call)
         return pre + new, val
 
     def expand_tail(call, cls):
@@ -524,6 +540,7 @@ def inline_new_helpers(tree, modname, inventory):
         if not isinstance(new[-1], (ast.Return, ast.Raise)):
             new.append(ast.copy_location(
                 ast.Return(value=ast.Constant(value=None)), call))
+        _relocate(pre + new, call)
         return pre + new
 
     def process(fn, cls):
